@@ -389,7 +389,7 @@ class FEPool:
                     break
                 d = j.get("dir") or self.materialize(j["files"])
                 req = dict(id=str(i), dir=d, main=j["main"])
-                for k in ("calls", "render", "dump", "repeat", "stack"):
+                for k in ("calls", "render", "dump", "repeat", "stack", "trace", "types"):
                     if k in j:
                         req[k] = j[k]
                 if proc is None or proc.poll() is not None:
